@@ -45,11 +45,16 @@ def main():
     # with the change
     rc_with, o_with = sh(f"{PY} {demo}", cwd=wt, env=env)
     # without the change
-    sh("git stash -q -- xeofs", cwd=wt)
+    # NOT git stash: refs/stash is shared by all worktrees of one repository (concurrent agents pop each other's changes)
+    pf = os.path.join(out, "patch.diff")
+    rc_r, o_r = sh(f"git apply -R {pf}", cwd=wt)
+    if rc_r != 0:
+        print("cannot revert the change in the worktree:", o_r[-300:])
+        return 1
     try:
         rc_without, o_without = sh(f"{PY} {demo}", cwd=wt, env=env)
     finally:
-        rc_pop, o_pop = sh("git stash pop -q", cwd=wt)
+        rc_pop, o_pop = sh(f"git apply {pf}", cwd=wt)
     ok_demo = rc_without == 0 and rc_with != 0
     suite = None
     if run_suite:
